@@ -3,11 +3,11 @@
 package kubernetes
 
 import (
-	"encoding/json"
-	jsonpatch "github.com/evanphx/json-patch/v5"
 	"context"
+	"encoding/json"
 	"errors"
 	"fmt"
+	jsonpatch "github.com/evanphx/json-patch/v5"
 	"net/http"
 	"sort"
 	"strings"
@@ -48,8 +48,9 @@ type apiServer struct {
 	watchers  []*simWatch
 	uid       int
 	// fault plan
-	patchFault func() error
-	stats      map[string]int
+	patchFault    func() error
+	stats         map[string]int
+	refusesStatus map[string]bool // objects whose status patches the server refuses as invalid
 }
 
 type simWatch struct {
@@ -223,6 +224,12 @@ func (r *simRepo) PatchStatus(_ context.Context, patch v1alpha4.Patch, _ metav1.
 	if !ok {
 		return nil, apierrors.NewNotFound(schema.GroupResource{Group: "heimdall.dadrus.github.com", Resource: "rulesets"}, patch.ResourceName())
 	}
+	if a.refusesStatus[patch.ResourceName()] {
+		// the API server refuses the patch as invalid, every time (a condition message beyond the CRD's 1024
+		// characters, a validating policy): answered with 422, which is not a conflict
+		a.stats["fault:status-patch-invalid-422"]++
+		return nil, apierrors.NewInvalid(schema.GroupKind{Group: "heimdall.dadrus.github.com", Kind: "RuleSet"}, patch.ResourceName(), nil)
+	}
 	// status-only update: resource version changes, generation does not. The patch heimdall sent is applied (the
 	// status it reported, e.g. a failed activation, is what later events and relists deliver)
 	a.rv++
@@ -252,6 +259,15 @@ func (r *simRepo) PatchStatus(_ context.Context, patch v1alpha4.Patch, _ metav1.
 }
 
 type simClient struct{ a *apiServer }
+
+func (a *apiServer) refuseStatusOf(name string) {
+	a.mu.Lock()
+	defer a.mu.Unlock()
+	if a.refusesStatus == nil {
+		a.refusesStatus = map[string]bool{}
+	}
+	a.refusesStatus[name] = true
+}
 
 func (c *simClient) RuleSetRepository(string) v1alpha4.RuleSetRepository { return &simRepo{a: c.a} }
 
@@ -285,7 +301,10 @@ func k8sProvSim(r *simcore.Run) {
 	const myClass = "sim-class"
 	mutate := func(what string) {
 		n := simcore.Pick(s, names, "object")
-		switch k := s.Draw(9, "k8s-op"); {
+		switch k := s.Draw(10, "k8s-op"); {
+		case k == 9:
+			api.refuseStatusOf(n)
+			r.Logf("%s: from now on the API server refuses status patches of %s as invalid (422)", what, n)
 		case k == 8:
 			v := simcore.Pick(s, []string{"1", "unknown", "-", "2 of 3", "/", "1/"}, "foreign-active-in")
 			api.foreignStatus(n, v)
@@ -356,11 +375,23 @@ func k8sProvSim(r *simcore.Run) {
 		return
 	}
 	stopped := false
-	defer func() {
-		if !stopped {
+	stop := func() {
+		// (a handler that never returns makes Stop wait forever: the harness waits for 3 s at most)
+		done := make(chan struct{})
+		go func() {
 			ctx, cancel := context.WithTimeout(context.Background(), 2*time.Second)
 			prov.Stop(ctx)
 			cancel()
+			close(done)
+		}()
+		select {
+		case <-done:
+		case <-time.After(3 * time.Second):
+		}
+	}
+	defer func() {
+		if !stopped {
+			stop()
 		}
 	}()
 	expected := func() map[string]string {
@@ -398,6 +429,15 @@ func k8sProvSim(r *simcore.Run) {
 		deadline := time.Now().Add(25 * time.Second)
 		for time.Now().Before(deadline) {
 			if r.Failed() {
+				return false
+			}
+			api.mu.Lock()
+			refused := api.stats["fault:status-patch-invalid-422"]
+			api.mu.Unlock()
+			if refused > 40 {
+				// far more refused patches than there were changes: the same patch is sent over and over, in the
+				// informer's only handler goroutine (no other event is processed meanwhile)
+				r.Fail("status-patch-retried-without-bound", "kubernetes", "%s: the API server refused %d status patches as invalid (422) - the provider keeps re-sending the patch instead of giving up; active %v, server holds %v", when, refused, actual(), expected())
 				return false
 			}
 			if same(actual(), expected()) {
@@ -499,9 +539,7 @@ func k8sProvSim(r *simcore.Run) {
 	if r.WantSample() && nontrivial {
 		r.Sample(map[string]any{"seed": r.Seed, "run": r.Index, "trace": r.Trace()})
 	}
-	ctx, cancel := context.WithTimeout(context.Background(), 2*time.Second)
-	prov.Stop(ctx)
-	cancel()
+	stop()
 	stopped = true
 }
 
